@@ -546,7 +546,7 @@ mod if_alloc {
         // Safety: Channel futures can be sent between threads as long as the underlying
         // channel is thread-safe (Sync), which allows to poll/register/unregister from
         // a different thread.
-        unsafe impl<MutexType: Sync, T: Clone + Send> Send
+        unsafe impl<MutexType: Send + Sync, T: Clone + Send> Send
             for StateReceiveFuture<MutexType, T>
         {
         }
